@@ -33,8 +33,9 @@ import Ibx.Model.FsSteps
   events in emission order (all concern the operation's mailbox).
 
   Not modelled: the two parent directory levels (as in FsSteps: which rmdir-parent hooks are issued is computed from
-  the layout; an EMPTY parent left behind by a refused rmdir-parent is not remembered), a failing readIndex other
-  than an undecodable index, a failing Source() of the message handed to AddMessage before the first step.
+  the layout; an EMPTY parent left behind by a refused rmdir-parent is not remembered), a failing Source() of the
+  message handed to AddMessage before the first step.  A readIndex that fails is an undecodable index (`dlisting = none`)
+  or an index file that cannot be opened (`opFR`, at the end of this file).
 -/
 namespace Ibx.Model.FsFault
 open Ibx Ibx.Spec.Store Ibx.Model.FsSteps
@@ -271,5 +272,21 @@ def orphanRaws (C : Codec) (d : Option MDir) : List Nat :=
 def hasTmp : Option MDir → Bool
   | none => false
   | some x => x.tmp.isSome
+
+/-! ### an index that exists and cannot be opened -/
+
+/-- the mailbox directory holds an index file -/
+def hasIndex : Option MDir → Bool
+  | none => false
+  | some x => x.index.isSome
+
+/-- `opFR C lay cap F noread op s`: as `opF`; with `noread` set, `os.Open(index.gob)` inside mbox.readIndex FAILS although the
+    `os.Stat` before it succeeded (the process is out of descriptors, the file belongs to somebody else after a restore, an
+    I/O error): readIndex returns that error and so does every operation — before its first mutation, before any event.
+    A mailbox without an index file cannot meet this fault: there `os.Stat` fails first and the mailbox is, rightly, taken
+    for empty. -/
+def opFR (C : Codec) (lay : Layout) (cap : Nat) (F : Nat → Bool) (noread : Bool) (op : FsSteps.Op) (s : FS) : OutFS :=
+  if noread && hasIndex (s.dirs op.box) then { res := .err, fs := s, events := [], trace := [] }
+  else opF C lay cap F op s
 
 end Ibx.Model.FsFault
